@@ -641,14 +641,25 @@ func (e *Exec) strEqConst(a string, c string) string {
 }
 
 func (e *Exec) strEqTerm(a, b string) string {
+	// Go string equality as an uninterpreted predicate with ground consequences
+	// (sound over-approximation: it is implied by identity and implies equal length;
+	// byte-level content is only related for comparisons with constants, see strEqConst).
+	// This keeps the scripts quantifier-free.
 	if !e.sc.funs["str.eq"] {
 		e.sc.funs["str.eq"] = true
-		i := e.sc.idx()
-		e.sc.emit(fmt.Sprintf("(define-fun str.eq ((a Str) (b Str)) Bool (and (= (str-len a) (str-len b)) (forall ((k %s)) (=> (and %s %s) (= (select (str-arr a) %s) (select (str-arr b) %s))))))",
-			i, e.le(e.sc.idxLit(0), "k"), e.lt("k", "(str-len a)"), e.add("(str-off a)", "k"), e.add("(str-off b)", "k")))
+		e.sc.emit("(declare-fun str.eq (Str Str) Bool)")
 	}
 	if a == b {
 		return "true"
+	}
+	key := "str.eq:" + a + "|" + b
+	if strings.Contains(a, "q.") || strings.Contains(b, "q.") {
+		// inside a quantifier body: no ground instance possible
+		return fmt.Sprintf("(str.eq %s %s)", a, b)
+	}
+	if !e.sc.funs[key] {
+		e.sc.funs[key] = true
+		e.sc.emit(fmt.Sprintf("(assert (and (=> (= %s %s) (str.eq %s %s)) (=> (str.eq %s %s) (= (str-len %s) (str-len %s))) (= (str.eq %s %s) (str.eq %s %s))))", a, b, a, b, a, b, a, b, a, b, b, a))
 	}
 	return fmt.Sprintf("(str.eq %s %s)", a, b)
 }
